@@ -6,7 +6,7 @@ CONSTANTS
   PNorm <- TokWidet
   PLit <- NoChars
   PMacro <- MacWide
-  PLen = 3
+  PLen = 2
   SAlpha <- StrWidet
   SLen = 3
   CfgSel = "all"
